@@ -188,10 +188,30 @@ class CFG:
         return body
 
     def in_loop(self, bb):
-        for a, h in self.back_edges():
-            if bb in self.loop_blocks(h):
-                return h
-        return None
+        """header of the innermost natural loop containing bb (None if bb is in no loop)"""
+        best, size = None, None
+        for h in {h for _, h in self.back_edges()}:
+            body = self.loop_blocks(h)
+            if bb in body and (size is None or len(body) < size):
+                best, size = h, len(body)
+        return best
+
+    def refusing_targets(self, header, site_bb):
+        """successor blocks of switches inside the loop `header` from which site_bb cannot be reached
+        without passing the header again (the arms that refuse the current iteration's element),
+        excluding arms taken straight from the header's own iterator test."""
+        body = self.loop_blocks(header)
+        out = []
+        for s in sorted(body):
+            t = self.fn.blocks[s]['term']
+            if t['k'] != 'switch' or not self.reaches(s, site_bb, avoid=(header,)) and s != header:
+                continue
+            for v, b in list(t['targets']) + [('otherwise', t['otherwise'])]:
+                if self.fn.blocks[b]['term']['k'] == 'unreachable':
+                    continue
+                if not self.reaches(b, site_bb, avoid=(header,)):
+                    out.append((s, b))
+        return out
 
     # switches ---------------------------------------------------------------------------------
     def switch_arms_reaching(self, sbb, target_bbs, avoid=()):
